@@ -32,6 +32,8 @@ MANIFEST = {
                  'extraction-based correspondence',
 }
 BUDGET = {'quick': 70, 'thorough': 1500}
+ESCALATE_BUDGET = 240      # a maker source changed since transcription: thorough-size correspondence, time-boxed
+SEARCH_BUDGET = 150
 MISMATCH_BUDGET = 0.0
 RULE = ('calls drawn per maker (sinc, gauss, block, arbitrary, adiabatic timing) over random systems (rf dead time, '
         'ring-down, rf/gradient raster, max_grad, max_slew) with flip angles (tiny, pi/2, pi, >2pi, negative, 0), '
@@ -44,7 +46,10 @@ RULE = ('calls drawn per maker (sinc, gauss, block, arbitrary, adiabatic timing)
 TRUSTED = ['RF envelope functions (np.sinc, np.exp, np.cos), np.pi and binary64 rounding are outside the model: the '
            'envelope is an arbitrary list in the theorems; the correspondence feeds the implementation\'s own samples',
            'make_trapezoid is modelled locally for the two argument sets used by the RF makers (C11 models it in full)']
-ASSUMPTIONS = ['ceil()/round() decisions are taken on exact rationals by the model and on binary64 by the code: when the '
+ASSUMPTIONS = ['slice-gradient theorems assume: gradient raster > 0 and >= eps (1e-9 s), max_grad > 0, duration >= 0; flip theorems '
+               'assume sum(envelope) != 0, pi > 0; make_arbitrary_rf delivers the flip angle for a user signal of positive sum '
+               '(minus the flip angle for a negative sum: abs() in its scaling) - recorded as a finding, not as a failure',
+               'ceil()/round() decisions are taken on exact rationals by the model and on binary64 by the code: when the '
                'exact quotient is within 1e-6 of an integer a one-raster disagreement is recorded as a benign '
                'divergence (the oracle still has to pass)',
                'durations are multiples of dwell in the main stream (as the property quantifies); off-raster durations '
